@@ -53,6 +53,18 @@ CHECKS = {
         note='Histories: exhaustive pairs over reduced pools, sampled up to length 6-8; fixed document/selector pools chosen for '
              'the memoised facts; observations compared through abstract node positions.',
         technique='TLA+ memo-machine model checked by TLC + TLC-generated call histories executed on the code + law-level TLC trace validation with inferred relation'),
+    'C05': dict(
+        category='model_checking',
+        text='ListFlag.tla states the design question behind the property (where the HTML-only restriction of an alternative '
+             'lives); TLC proves the union/monotonicity laws for the per-alternative placement over all cases and refutes the '
+             'per-list placement (negative model). Conformance is law-level trace validation: for every ordered pair of a '
+             '69-atom pool (every pseudo-class the parser accepts, namespaces, custom alias, complex selectors) x document kinds '
+             '(html.parser, html5lib, lxml, XHTML, XML; SVG subtree, iframe) x namespace maps, the real results of the 10 '
+             'compound forms are recorded and ListAlgebra.tla (atom rows inferred by TLC) accepts iff the Boolean laws explain them.',
+        design_ref='§6 C05',
+        note='Pairs (not triples) of atoms exhaustively in thorough, half of them in quick; complement laws are relative to the '
+             'universe a top-level * has under the same namespace map; one fixed document per kind.',
+        technique='TLA+ design model (positive+negative) checked by TLC; law-level TLC trace validation of recorded selects with inferred atom rows'),
 }
 
 PENDING = {}
